@@ -15,7 +15,8 @@
 
   Two places of the code as found did the bookkeeping wrongly; the model has both behaviours, selected by `Cfg`:
     `fixRemove = false`: `SetInstance.remove` on a one-to-many collection repeats, after `reverse.__set__(item, None)` has
-       already run `reverse_remove` on this very SetData, the removal bookkeeping (`count -= len(items)`, `removed |= items`);
+       already run `reverse_remove` on this very SetData, part of the removal bookkeeping: `removed |= items` also for an
+       item that was only pending in `added` (the count is no longer touched twice: commit 69b7a62);
     `fixFlush = false`:  `_calc_modified_m2m` resets `added` / `removed` only on the side of a many-to-many relationship from
        which it collects the pairs (`if reverse in modified_m2m: continue`).
   Core Lean only.
@@ -84,6 +85,11 @@ def removeTail (sd : SetData) (x : Item) : SetData :=
   if x ∈ sd.added then { sd with items := sd.items.erase x, count := bump sd.count (-1), added := sd.added.erase x }
   else { sd with items := sd.items.erase x, count := bump sd.count (-1), removed := ins x sd.removed }
 
+/-- the same tail as the code runs it NOW after the reverse call of a one-to-many collection has already taken the item out of
+    the SetData: `count -= len(items & setdata)` and `setdata -= items` do nothing, the item is no longer in `added`,
+    `removed |= items` still happens -/
+def removeTailNow (sd : SetData) (x : Item) : SetData := { sd with removed := ins x sd.removed }
+
 /-- the tail of `SetInstance.add` for one item: `setdata |= new_items; count += len(new_items);
     if removed: (new_items, removed) = (new_items - removed, removed - new_items); added |= new_items` -/
 def addTail (sd : SetData) (x : Item) : SetData :=
@@ -121,7 +127,7 @@ def step (cfg : Cfg) (c : Coll) : Op → Except Err (Coll × Option Int)
     else
       match revRemove c.sd x with                                            -- reverse.__set__(item, None) / item._delete_()
       | .error e => .error e
-      | .ok sd1 => .ok ({ c with sd := if cfg.fixRemove then sd1 else removeTail sd1 x }, none)
+      | .ok sd1 => .ok ({ c with sd := if cfg.fixRemove then sd1 else removeTailNow sd1 x }, none)
   | .loadAll => .ok ({ c with sd := loadAll c }, some (loadAll c).items.length)     -- len(obj.coll)
   | .count =>
     match c.sd.count with
@@ -183,5 +189,30 @@ def ValidFrom (cfg : Cfg) : Coll → List Item → List Op → Prop
       match step cfg c op with
       | .error _ => True
       | .ok (c', _) => ValidFrom cfg c' (specStep l op) ops
+
+/-- the same without `OpSafe`: only the callers' guarantees -/
+def CallersOk (cfg : Cfg) : Coll → List Item → List Op → Prop
+  | _, _, [] => True
+  | c, l, op :: ops =>
+    OpValid c l op ∧
+      match step cfg c op with
+      | .error _ => True
+      | .ok (c', _) => CallersOk cfg c' (specStep l op) ops
+
+instance decValidFrom (cfg : Cfg) : (c : Coll) → (l : List Item) → (ops : List Op) → Decidable (ValidFrom cfg c l ops)
+  | _, _, [] => isTrue trivial
+  | c, l, op :: ops => by
+    unfold ValidFrom
+    cases h : step cfg c op with
+    | error e => exact inferInstance
+    | ok r => exact @instDecidableAnd _ _ _ (@instDecidableAnd _ _ _ (decValidFrom cfg r.1 (specStep l op) ops))
+
+instance decCallersOk (cfg : Cfg) : (c : Coll) → (l : List Item) → (ops : List Op) → Decidable (CallersOk cfg c l ops)
+  | _, _, [] => isTrue trivial
+  | c, l, op :: ops => by
+    unfold CallersOk
+    cases h : step cfg c op with
+    | error e => exact inferInstance
+    | ok r => exact @instDecidableAnd _ _ _ (decCallersOk cfg r.1 (specStep l op) ops)
 
 end PonyVerif.Model.SetCount
